@@ -110,6 +110,12 @@ func VerifyFunc(ld *Loader, cs *Contracts, key string) (res *FuncResult) {
 		}
 		ex.finish(res)
 	}()
+	if tps := ex.fn.Type().(*types.Signature).TypeParams(); tps.Len() > 0 {
+		ex.tparams = map[string]types.Type{}
+		for i := 0; i < tps.Len(); i++ {
+			ex.tparams[tps.At(i).Obj().Name()] = tps.At(i)
+		}
+	}
 	ex.prepare(decl)
 	st := &State{vars: map[types.Object]Val{}, heap: map[string]string{}, ghost: map[string]string{}, extra: map[string]Val{}, compEpoch: map[string]int{}, pureInst: map[string]bool{}}
 	alloc0 := ex.fresh("alloc0", SInt)
@@ -363,7 +369,7 @@ func (ex *Exec) prepare(decl *ast.FuncDecl) {
 						if wantPtr && len(se.Index()) == 1 {
 							if id, ok := unparen(sel.X).(*ast.Ident); ok {
 								if o, ok := info.Uses[id].(*types.Var); ok {
-									if _, isPtr := o.Type().Underlying().(*types.Pointer); !isPtr {
+									if _, isPtr := under(o.Type()).(*types.Pointer); !isPtr {
 										ex.boxed[o] = true
 									}
 								}
@@ -410,7 +416,7 @@ func (ex *Exec) prepare(decl *ast.FuncDecl) {
 				if o == nil {
 					continue
 				}
-				if _, isPtr := o.Type().Underlying().(*types.Pointer); isPtr {
+				if _, isPtr := under(o.Type()).(*types.Pointer); isPtr {
 					fresh := false
 					if len(s.Rhs) == len(s.Lhs) {
 						if u, ok := unparen(s.Rhs[i]).(*ast.UnaryExpr); ok && u.Op == token.AND {
@@ -430,14 +436,14 @@ func (ex *Exec) prepare(decl *ast.FuncDecl) {
 					if lit, ok := unparen(s.Rhs[i]).(*ast.FuncLit); ok {
 						ex.closureOfVar[o] = lit
 					}
-					if _, isSlice := o.Type().Underlying().(*types.Slice); isSlice {
+					if _, isSlice := under(o.Type()).(*types.Slice); isSlice {
 						if isFreshExpr(s.Rhs[i], o) {
 							ex.freshSliceVars[o] = true
 						} else {
 							notFresh[o] = true
 						}
 					}
-				} else if _, isSlice := o.Type().Underlying().(*types.Slice); isSlice {
+				} else if _, isSlice := under(o.Type()).(*types.Slice); isSlice {
 					notFresh[o] = true
 				}
 			}
@@ -447,7 +453,7 @@ func (ex *Exec) prepare(decl *ast.FuncDecl) {
 				if !ok {
 					continue
 				}
-				if _, isSlice := o.Type().Underlying().(*types.Slice); isSlice {
+				if _, isSlice := under(o.Type()).(*types.Slice); isSlice {
 					if len(s.Values) == 0 || (i < len(s.Values) && isFreshExpr(s.Values[i], o)) {
 						ex.freshSliceVars[o] = true
 					} else {
